@@ -1,5 +1,6 @@
 CONSTANTS Depth = 5
           Record = TRUE
           Wide = TRUE
+          Full = FALSE
 INIT InitGen
 NEXT NextGen
